@@ -1,6 +1,7 @@
-CONSTANTS N = 2  Depth = 4  Emit = FALSE
+CONSTANTS N = 2  Depth = 4  Emit = FALSE  Kind = "poly"
 INIT Init
 NEXT Next
+VIEW View
 CONSTRAINT Bound
-INVARIANTS WellFormed EndsPreserved EndsFromOperands Meaning DegreeBookkeeping IntegralFacts PathsAgree Borrow
+INVARIANTS WellFormed EndsPreserved EndsFromOperands Meaning DegreeBookkeeping IntegralFacts PathsAgree Borrow EmitScript
 CHECK_DEADLOCK FALSE
